@@ -160,7 +160,10 @@ def compare_nf(ob, got, specs, N=None, what='value'):
         if g == s:
             ob.ok('%s normalises to %s' % (what, sym.show(s)))
             return True
-    op = opaque_in(g)
+    known = set()
+    for sp in nfs:
+        known.update(opaque_in(sp))
+    op = [x for x in opaque_in(g) if x not in known]
     msg = '%s normalises to `%s`, expected `%s`' % (what, sym.show(g), sym.show(nfs[0]))
     if op:
         ob.unknown(msg + ' (opaque constructs: %s)' % ', '.join(op[:3]))
